@@ -175,6 +175,30 @@ func runC14(prop string, res *Result, pool *DrvPool, r *Rng) {
 			break
 		}
 	}
+	// what one call returned must not be touched by a later call: race reports and dumps followed by
+	// text, each scanned with another scan (other streams, other readers) before and after it
+	for i := 0; i < countN(res.Tier, 150, 3000); i++ {
+		var txt string
+		if r.Bool() {
+			rs := GenRace(r)
+			txt = rs.Print(false)
+		} else {
+			txt = GenCfg(r).Dump(GenDump(r, 3, 3))
+		}
+		trailer := fmt.Sprintf("exit status %d\nremainder line %d of the stream\nand one more\n", 2+r.Intn(3), i)
+		op := &ScanOp{Op: "scan", Data: hb(txt + trailer), Sched: genSched(r, len(txt)+len(trailer)), Final: "eof", WithData: r.Bool(), History: true}
+		got := implScan(op)
+		plain := &ScanOp{Op: "scan", Data: op.Data, Sched: op.Sched, Final: "eof", WithData: op.WithData}
+		res.Count("interleaved-scans")
+		if got.Panic {
+			res.Violation(Finding{Stream: "interleaved", What: "ScanSnapshot panicked: " + got.PanicMsg, Op: plain})
+			break
+		}
+		if !strings.HasSuffix(txt+trailer, got.Rest.String()) || (got.Err == "" && !strings.HasSuffix(got.Rest.String(), "and one more\n")) {
+			res.Violation(Finding{Stream: "interleaved", What: fmt.Sprintf("the remainder a scan returned was changed by a scan of another stream made right after it: %q is not the tail of the input", clip(got.Rest.String())), Op: plain, Got: got})
+			break
+		}
+	}
 	runColdConcurrentScans(res, r.Fork())
 	runRaceProgram(res)
 	// model correspondence of the aggregation itself is C04's; here: aggregate twice = same
